@@ -677,6 +677,7 @@ BASE = "nostr_relay/storage/base.py"
 AUTH = "nostr_relay/auth.py"
 
 MUTANTS = [
+    M("c14-cli-roles-lowered", "nostr_relay/cli.py", "        await storage.set_auth_roles(pubkey, roles)", "        roles = roles.lower()\n        await storage.set_auth_roles(pubkey, roles)", "C14.verbatim"),
     M("c14-storage-puts-directly", "nostr_relay/storage/base.py", "                    self._notify_sub_tasks.append(\n                        asyncio.create_task(sub.notify(event))\n                    )", "                    if sub.check_event(event, sub.filters):\n                        sub.queue.put_nowait((sub.sub_id, event))", "C14.output"),
     M("c14-context-on-self", "nostr_relay/storage/db.py", "                context = {\n                    \"config\": Config,\n                    \"client_id\": self.client_id,\n                    \"auth_token\": self.auth_token,\n                }", "                context = self.storage.output_context", "C14.context"),
     M("c14-auth-table-unkeyed", "nostr_relay/storage/__init__.py", "            sa.Column(\"pubkey\", sa.Text(), primary_key=True),\n            sa.Column(\"roles\", sa.Text()),", "            sa.Column(\"pubkey\", sa.Text(), index=True),\n            sa.Column(\"roles\", sa.Text()),", "C14.authkey"),
